@@ -27,6 +27,15 @@ CLAIMS = {
  "C10": dict(level=MC, design="5-C10",
    text="The rejection samplers are TLA+ state machines over the caller-supplied byte stream (Sampling.tla), model-checked over every short stream for range, no over-read, totality and uniformity (bijection). The implementation is bound through its random-source callback: TLC-generated scripted streams force 0..k rejections in every sampler (candidate = modulus, above it, unused top bits set, digit tuples >= r) and TLC validates outputs (below modulus, digits consistent, non-identity subgroup points); hash-to-scalar is checked as (input with top bit cleared) mod r, hash-to-curve as the first x >= x0 with x^3+b a square on every back end, identity derivation as the cofactor multiple in G1.",
    note="Uniformity is shown on the specification only. The sampler's byte-consumption protocol is compared as a non-gating diagnostic so that a different but correct protocol does not alarm."),
+ "C01": dict(level=MC, design="5-C01",
+   text="Pairing.tla defines the pairing from first principles (textbook Miller function over the bits of |x| with chord/tangent lines through multiples of the untwisted Q, inversion for negative x, plain exponentiation by 3(q^12-1)/r) and TLC evaluates it at the real parameters; the twist-slope form is checked by TLC against the unoptimised definition on E(Fq12). TLC-generated cases (generator pair = exported GT generator, scalar-boundary multiples, all identity combinations, non-normalised Jacobian inputs) are replayed through the affine, prepared and C-API entry points on asm/portable builds and every output must equal the specification's value; random tuples additionally check e(aP,bQ)=e(P,Q)^(ab), e^r=1 and e=1 iff an argument is the identity with the specification's Fq12 arithmetic.",
+   note="Not exhaustive over the ~2^510 input pairs: constructed witnesses per case class plus random tuples; no toy-BLS12 instance of the coded loop yet. Trusted: TLC and the Java accelerators (checked against their TLA+ definitions)."),
+ "C07": dict(level=MC, design="5-C07",
+   text="TLC enumerates GT bases x an exponent family (0, 1, around r, 2r, 2^256-1, powers of |x| and word boundaries) x routine (division-based, division-free, decomposed, C API) x alias; every recorded result must equal a^k computed by square-and-multiply in the specification's Fq12, fast squaring a^2, inversion a^-1; the random-exponentiation routine is fed scripted streams that force inner and outer rejections and must return y < r and exactly a^y. The sampler is model-checked as a state machine (Sampling.tla: range, totality, uniformity as a bijection).",
+   note="Uniformity is established on the specification, not measured on the implementation."),
+ "C08": dict(level=MC, design="5-C08",
+   text="MillerProduct.tla models the shared-accumulator loop with per-record loop state (running point / coefficient cursor) as a state machine; TLC explores all lists of up to 3 records (affine or prepared, skipped or not, stale cursors) and two consecutive products, checking cursor bounds and result = product of single loops. The implementation is bound by replaying TLC-enumerated list shapes x identity masks through the C API (two products over the same record arrays): TLC checks the result against the product of the specification's pairings, prepared = plain, identity pairs contribute 1, empty product = 1, and the recorded cursors (read through the C mirror struct) equal NumCoeffs = 68 or 0 when skipped.",
+   note="List lengths up to 3+3 in the thorough tier, 2+2 in quick; values at the real parameters."),
 }
 checks = []
 for p in props:
